@@ -78,6 +78,8 @@ add('k2_insert', 'insert_from_remove_e8', 'insert_from_other::<E8>(false, super:
 add('k2_insert', 'insert_from_swap_remove_e8', 'insert_from_other::<E8>(false, super::k2_remove::OP_SWAP_REMOVE)', props=['C01', 'C03'], tier='t', cost=80)
 add('k2_insert', 'push_from_pop_e8', 'insert_from_other::<E8>(true, super::k2_remove::OP_POP)', props=['C01', 'C03'], tier='t', cost=40)
 add('k2_insert', 'push_from_remove_e16', 'insert_from_other::<E16>(true, super::k2_remove::OP_REMOVE)', props=['C01', 'C03'], tier='t', cost=60)
+add('k2_insert', 'insert_from_drained_e8', 'insert_from_other::<E8>(false, OP_DRAINED)', props=['C01', 'C03', 'C02'], tier='q', cost=90)
+add('k2_insert', 'push_from_drained_e16', 'insert_from_other::<E16>(true, OP_DRAINED)', props=['C01', 'C03'], tier='t', cost=90)
 add('k2_insert', 'insert_lazy_clone_e8', 'insert_lazy_clone::<E8>(false)', props=['C01', 'C09', 'C03'], tier='q', cost=40)
 add('k2_insert', 'push_lazy_clone_e8', 'insert_lazy_clone::<E8>(true)', props=['C09'], tier='q', cost=20)
 add('k2_insert', 'insert_lazy_clone_tgt_e8', 'insert_lazy_clone_tgt::<E8>(false)', props=['C01', 'C06'], tier='q', cost=50)
@@ -116,6 +118,7 @@ add('k2_remove', 'remove_drop_nodrop_e3', 'remove_erased::<E3>(OP_REMOVE, SINK_D
 # ---------------------------------------------------------------------------------------------------
 # K2 drain / splice
 IN_RANGE = ['len', 'cap', 'w', 'u', 'start', 'end', 'f', 'b']
+U5X = ['#[kani::unwind(5)]']
 for sz in SIZES_ALL:
     drop = 'false' if sz == 'e16' else 'true'
     add('k2_range', 'drain_erased_' + sz, 'drain_h::<%s>(false, %s, DROP)' % (TY[sz], drop), props=['C02', 'C03', 'C05', 'C06'],
@@ -124,6 +127,8 @@ for sz in ['e8', 'e16', 'e12']:
     add('k2_range', 'drain_typed_' + sz, 'drain_h::<%s>(true, false, DROP)' % TY[sz], props=['C02', 'C03', 'C05'],
         tier=tier_for(sz, {'e8'}), cost=250 if sz in SLOW else 25, inputs=IN_RANGE)
 add('k2_range', 'drain_typed_d8_b3', 'drain_hb::<D8>(true, true, DROP, 3)', props=['C02', 'C03'], tier='q', kind='bounded', bound='typed element type with drop glue: at most 3 unyielded range elements (core slice drop glue loop unwound)', attrs=['#[kani::unwind(5)]'], cost=60, inputs=IN_RANGE)
+add('k2_range', 'drain_typed_api_e8', 'typed_api_h::<E8>(false, mk_e8)', props=['C02', 'C01'], tier='q', cost=40)
+add('k2_range', 'splice_typed_api_e8', 'typed_api_h::<E8>(true, mk_e8)', props=['C02'], tier='q', kind='bounded', bound='one replacement value', attrs=U5X, cost=80)
 add('k2_range', 'drain_forget_e8', 'drain_h::<E8>(false, true, FORGET)', props=['C07', 'C03'], tier='q', cost=5, inputs=IN_RANGE)
 add('k2_range', 'drain_typed_forget_e8', 'drain_h::<E8>(true, false, FORGET)', props=['C07'], tier='q', cost=5, inputs=IN_RANGE)
 add('k2_range', 'drain_forget_e3', 'drain_h::<E3>(false, true, FORGET)', props=['C07'], tier='t', cost=30, inputs=IN_RANGE)
